@@ -13,7 +13,7 @@ CHECKS = [
           "and parent heralds, is executed on the real Circuit; legality, user-mode count, ancilla herald bookkeeping and "
           "all heralded amplitudes (scatter matrix up to permutation of equal-photon ancillas, witness = concrete differing "
           "amplitude) are compared with RefCircuit, which has no mode-shifting logic.",
-  "note": "n<=5 user modes, depth<=3, sub library of 10 shapes (<=2 heralds, nesting depth 2-3); Haar blocks stand for all unitaries"},
+  "note": "n<=5 user modes, depth<=3; named library of 11 shapes + systematic family (every set of <=3 herald positions on 3-5 modes) in pairs/triples of additions; Haar blocks stand for all unitaries"},
  {"id": "C03", "engine": "E1", "ref": "DESIGN.md §3 C03",
   "technique": "bounded exhaustive enumeration of circuits x Fock inputs/outputs x call shapes vs independent permanent",
   "text": "For every circuit of a generated family (n<=4, every loss placement incl. 0 and 1, every herald layout incl. "
@@ -21,7 +21,7 @@ CHECKS = [
           "shape, the simulated amplitude equals an independently computed permanent/sqrt(factorials) on the circuit's "
           "U_full with heralds and vacuum loss modes placed; unit norm for lossless unheralded circuits; 11 invalid calls "
           "must each be refused.",
-  "note": "n<=4 modes, <=3 visible photons (+<=2 herald photons); reference permanent cross-checked two ways at start-up"},
+  "note": "n<=4 (5 thorough) modes, <=3 (5) visible photons; also a Simulator created before the circuit is built and one reused across tiny parameter nudges; reference permanent cross-checked at start-up"},
  {"id": "C04", "engine": "E1", "ref": "DESIGN.md §3 C04",
   "technique": "bounded exhaustive enumeration of circuits x Fock inputs x backends vs full-Fock-space reference distribution",
   "text": "Same family and inputs; each backend's distribution is compared entry by entry with |amp|^2 summed over the "
@@ -50,7 +50,7 @@ CHECKS = [
           "RefDetector o distribution followed by heralding, herald removal, post-selection, min_detection. Random "
           "draws may only be compared (any other use raises). Seed reproducibility with the real generators.",
   "note": "convergence of empirical frequencies is inferred from the exact law plus i.i.d. draws of numpy's Generator.choice / "
-          "random.random (trusted), never observed; <=3 photons, <=4 modes"},
+          "random.random (trusted), never observed; <=3 photons, <=4 modes; histories of in-place detector edits to depth 3-4"},
  {"id": "C08", "engine": "E2", "ref": "DESIGN.md §3 C08",
   "technique": "explicit-state BFS over the real API on a pool of live objects; invariant on every transition",
   "text": "Breadth-first search from a pool {parent, plain sub, heralded sub, parent already holding the heralded sub, copy "
@@ -66,7 +66,7 @@ CHECKS = [
           "beam splitters, loss, 3-cycles, unitary blocks, barriers, heralds, Parameters) x every sequence of the five "
           "rewrites up to the length bound; after each step U_full, heralds and input size equal an untouched twin, the "
           "structural post-conditions hold, and editing any produced object leaves every other one's fingerprint unchanged.",
-  "note": "n=4, depth 2/3, rewrite length 2/3; construction legality taken from the implementation (decided in C01/C02)"},
+  "note": "n=4, depth 2/3, rewrite length 2/3, plus a swap-focused stage (5 modes, depth 4/5); construction legality taken from the implementation (decided in C01/C02)"},
  {"id": "C10", "engine": "E2", "ref": "DESIGN.md §3 C10",
   "technique": "explicit-state search: Parameter automaton to closure; BFS over parameter updates x circuit templates vs RefCircuit",
   "text": "(A) the Parameter automaton over a finite value/bound alphabet (incl. non-numeric and rejected updates), directly and "
@@ -74,7 +74,7 @@ CHECKS = [
           "exception types. (B) BFS over interleavings of value/bound updates with construction of 8 placement templates, "
           "copy and freeze; after every transition every live circuit's U equals RefCircuit at the current values or raises "
           "CircuitCompilationError iff a value is invalid for its slot; frozen copies keep their values and list no parameters.",
-  "note": "part B to depth 4 (quick) / 6 (thorough), at most two live circuits at a time; non-finite values outside the alphabet"},
+  "note": "part B to depth 4 (quick) / 6 (thorough) over 10 placement templates incl. in-place rewrites, at most two live circuits at a time; non-finite values outside the alphabet"},
  {"id": "C11", "engine": "E2+E3", "ref": "DESIGN.md §3 C11",
   "technique": "explicit-state BFS over reconfiguration histories of long-lived objects with complete vars() fingerprints; differential oracle vs fresh object; sampling laws via choice-point enumeration",
   "text": "BFS over attribute assignments, in-place mutations of circuit/parameters/source, reads and sampling calls on a "
@@ -102,20 +102,20 @@ CHECKS = [
           "[0,2pi), heralds equal. Every combination of Constant/TopHat/Gaussian per slot x circuits x map seeds: declared "
           "bounds, reproducibility, sub-unitarity. The Gaussian resampling loop is run on every scripted answer sequence with "
           "<=3 out-of-range answers; TopHat at the ends of its range.",
-  "note": "'all seeds' = map seeds {0,1,2}; unitaries from a finite structured alphabet + seed-varied Haar"},
+  "note": "'all seeds' = map seeds {0,1,2}; unitaries from a finite structured alphabet + seed-varied Haar; error-model histories {assign slot, map(seed)} to depth 3 against a fresh model"},
  {"id": "C15", "engine": "E1", "ref": "DESIGN.md §3 C15",
   "technique": "bounded exhaustive enumeration of base-circuit programs x inputs x callback orders; harness is the experiment callback",
   "text": "All products of <=2 gates from a 12-gate alphabet (1 qubit), entangling gates incl. heralded/post-selected x leading/"
           "trailing complex layers (2 qubits), GHZ/CCZ-type states (3 qubits): the callback checks it got exactly 3^n circuits, "
           "each base + documented basis change, answers with exact RefFock frequencies; rho must be Hermitian, trace one, equal "
           "to |psi><psi|, fidelity one, base unchanged; all 6 callback orders for one qubit and 18 for two are forced.",
-  "note": "noise-free frequencies; <=3 qubits; callback orders all for n=1, slice for n=2"},
+  "note": "noise-free frequencies; <=3 qubits; callback orders all for n=1, slice for n=2; one object reused across an in-place edit of the base circuit"},
  {"id": "C16", "engine": "E1", "ref": "DESIGN.md §3 C16",
   "technique": "bounded exhaustive enumeration of gate programs; harness is the experiment callback; comparison with choi_from_unitary and the closed-form gate fidelity",
   "text": "Every product of <=2 gates of the 12-gate alphabet (1 qubit) and entanglers x 4x4 single-qubit layers (2 qubits): LI "
           "Choi == choi_from_unitary(V), MLE Choi positive/TP with fidelity >= 0.99, gate fidelity equals the closed form for 6 "
           "targets; V is the RefFock dual-rail unitary cross-checked against the literal product.",
-  "note": "MLE on all 1-qubit processes and a fixed slice of 2-qubit ones (iterative solver, seconds each)"},
+  "note": "MLE on all 1-qubit processes and a fixed slice of 2-qubit ones (iterative solver, seconds each); tomography objects reused across base-circuit edits and repeated fidelity queries"},
  {"id": "C17", "engine": "E1", "ref": "DESIGN.md §3 C17",
   "technique": "exhaustive enumeration of small result contents (ordered state selections x valuations x mappings)",
   "text": "Every ordered selection of <=2 inputs and <=3 outputs from the 10 Fock states over 2 modes (and a 3-mode set), with an "
